@@ -33,7 +33,10 @@ RULE = ("cases: 1-4 hyperparameters drawn from all 15 public constructors (bound
         "corner, used a boundary draw and has at least 20 compared lines")
 
 THEOREMS = [
-    "SyneTune.C07.clip_mem",
+    "SyneTune.C07.decode_member",
+    "SyneTune.C07.decode_wrong_length",
+    "SyneTune.C07.decode_rejects_outside",
+    "SyneTune.C07.encode_cube",
 ]
 
 
@@ -52,6 +55,8 @@ def corpus():
         one({"k": "ordinal", "cats": [3.0], "kind": "nn-log"}),
         one({"k": "randint", "lo": 134250960, "hi": 134250962}, {"k": "randint", "lo": 134250960, "hi": 134250961}),
         one({"k": "lograndint", "lo": 140767653771162, "hi": 140767653771167}),
+        one({"k": "logfinrange", "lo": 1.5, "hi": 150.0, "size": 10, "cast_int": True}),
+        one({"k": "logfinrange", "lo": 0.6, "hi": 1.6, "size": 2, "cast_int": True}),
         # degenerate but legal: everything must hold
         one({"k": "uniform", "lo": 2.5, "hi": 2.5}),
         one({"k": "randint", "lo": 7, "hi": 7}),
